@@ -298,6 +298,7 @@ class MethodAnalysis:
         self.cover_clobbers = []  # ... where the key may have been created earlier in this very call
         self.test_alias = {}  # local flag name -> the membership test it was assigned from
         self.key_version = {}  # table -> number of deletions so far (key-set atoms are versioned by it)
+        self.return_conds = []  # path conditions at each `return`
         self.key_cover = {}  # table -> [formula over $]: IDs made keys by a completed creation loop of this call
         self.accepted = set()  # key terms accepted by an IDDict store
         self.memb = set()  # (rel-with-side, edge term, node term) memberships known to hold
@@ -409,6 +410,7 @@ class MethodAnalysis:
             if st.value is not None:
                 self.ev(st.value, env, conds, loops, st)
             self.has_return = True
+            self.return_conds.append(tuple(conds))
             return None
         if isinstance(st, ast.Raise):
             self.raise_point("explicit raise", st, conds, loops)
@@ -603,6 +605,17 @@ class MethodAnalysis:
                 k = Sc(k.term, caller=True)
             if isinstance(k, Sc) and not present and isinstance(r, Table):
                 self.establish_absent(r.name, k.term)
+            if isinstance(k, Sc) and k.dom is not None and isinstance(r, SetV):
+                # `n in unseen` with unseen = members - keys: what the outcome says about n being a key
+                fact = And(k.dom.f, subst(r.f, "$") if False else r.f) if present else And(k.dom.f, Not(r.f))
+                for t in ("N", "E"):
+                    ka = self.keys_atom(t)
+                    if ka not in atoms_of(fact):
+                        continue
+                    if self._valid(Or(Not(fact), ka)) is True:
+                        self.establish_pre(t, k.term)
+                    elif self._valid(Not(And(fact, ka))) is True and not self.covers(t, (), definite=False):
+                        self.establish_absent(t, k.term)
             if isinstance(k, Sc) and present:
                 if isinstance(r, Table):
                     self.establish_pre(r.name, k.term)
@@ -785,13 +798,13 @@ class MethodAnalysis:
                     d[k] = val
                 return DiLocal(d["in"], d["out"])
             return Opaque("dict literal")
-        if isinstance(node, ast.BinOp) and isinstance(node.op, (ast.BitOr, ast.BitAnd, ast.Sub)):
+        if isinstance(node, ast.BinOp) and isinstance(node.op, (ast.BitOr, ast.BitAnd, ast.Sub, ast.Add)):
             a = self.as_set(self.ev(node.left, env, conds, loops, st, quiet))
             b = self.as_set(self.ev(node.right, env, conds, loops, st, quiet))
             if a is None or b is None:
                 return Opaque("set algebra on unknown operands")
             tk = a.toks | b.toks
-            if isinstance(node.op, ast.BitOr):
+            if isinstance(node.op, (ast.BitOr, ast.Add)):  # list + list: the elements of both
                 return SetV(Or(a.f, b.f), toks=tk)
             if isinstance(node.op, ast.BitAnd):
                 return SetV(And(a.f, b.f), toks=tk)
@@ -1096,6 +1109,9 @@ class MethodAnalysis:
         if callee is None or callee is self.fn:
             return False
         params = callee.params[1:]
+        for a in args:
+            if isinstance(a, Opaque) and a.why.startswith("unbound"):
+                raise Infeasible(a.why)  # this valuation never reaches the call (a name it passes is not bound)
         kwargs = {k.arg: self.ev(k.value, {}, conds, loops, st, quiet=True) for k in node.keywords if k.arg} if False else {}
         argmap = {}
         for i, pn in enumerate(params):
@@ -1106,10 +1122,11 @@ class MethodAnalysis:
                 return False  # keyword arguments of helpers: keep the opaque treatment
         trusted = tuple(pn for pn, a in argmap.items() if self.arg_validated(a))
         pvals = {pn: Coll(a.valid, 0) for pn, a in argmap.items() if isinstance(a, Coll)}
-        ckey = (self.repo.digest(), callee.fq, trusted, self.directed, self.cname, tuple(sorted(self.writer_methods)), tuple(sorted((k, v.valid) for k, v in pvals.items())))
+        consts = {pn: a.const for pn, a in argmap.items() if isinstance(a, Sc) and a.const is not None and isinstance(a.const, (str, bool, int))}
+        ckey = (self.repo.digest(), callee.fq, trusted, self.directed, self.cname, tuple(sorted(self.writer_methods)), tuple(sorted((k, v.valid) for k, v in pvals.items())), tuple(sorted(consts.items())))
         sub = _SUB_CACHE.get(ckey)
         if sub is None:
-            sub = MethodAnalysis(self.repo, callee, self.directed, {}, trusted_params=trusted, writer_methods=self.writer_methods, cname=self.cname, depth=self.depth + 1, param_values=pvals)
+            sub = MethodAnalysis(self.repo, callee, self.directed, dict(consts), trusted_params=trusted, writer_methods=self.writer_methods, cname=self.cname, depth=self.depth + 1, param_values=pvals)
             sub.helper_post = self.helper_post
             try:
                 sub.run()
@@ -1195,10 +1212,15 @@ class MethodAnalysis:
             else:
                 self.raises.append(RaisePoint(it.kind, it.stmt, xconds(it.conds), xloops(it.loops), self.tick(), it.text + f" [in {m}]", it.callee, it.validated))
         # the helper returned normally: none of its early exits (raise under a condition) fired
+        exit_conds = None
         if not getattr(sub, "has_return", False) and getattr(sub, "fall_conds", None):
+            exit_conds = sub.fall_conds
+        elif getattr(sub, "fall_conds", None) is None and len(getattr(sub, "return_conds", [])) == 1:
+            exit_conds = sub.return_conds[0]  # a single `return` at the end of the helper
+        if exit_conds:
             if not hasattr(self, "pending_conds"):
                 self.pending_conds = []
-            self.pending_conds.extend(xconds(sub.fall_conds)[len(tuple(conds)):])
+            self.pending_conds.extend(xconds(exit_conds)[len(tuple(conds)):])
         # facts the helper leaves behind
         for t, j in self.helper_post(m):
             if j < len(args) and isinstance(args[j], (Sc, CallerData)):
@@ -1238,7 +1260,7 @@ class MethodAnalysis:
             self.emit(Event("K:" + t.name, "-", None, None, None, conds, loops, st, self.tick(), extra=TRUE, note="table cleared"))
             return Opaque("clear")
         if m in ("keys",):
-            return SetV(Atom("$", "in", f"keys({t.name})"))
+            return SetV(self.keys_atom(t.name) if t.name in ("N", "E") else Atom("$", "in", f"keys({t.name})"))
         if m in ("values",):
             return SetV(Atom("$", "in", f"values({t.name})"))
         if m == "items":
@@ -1376,6 +1398,19 @@ class MethodAnalysis:
                 core = v.operand if isinstance(v, ast.UnaryOp) and isinstance(v.op, ast.Not) else v
                 if isinstance(core, ast.Compare) and len(core.ops) == 1 and isinstance(core.ops[0], (ast.In, ast.NotIn)):
                     self.test_alias[t.id] = v
+        # `self._edge[k] = {"in": tail_set, "out": head_set}`: the two local names denote the stored sides from now on
+        if self.directed and isinstance(st.value, ast.Dict) and len(st.targets) == 1 and isinstance(st.targets[0], ast.Subscript):
+            base = self.ev(st.targets[0].value, env, conds, loops, st, quiet=True)
+            if isinstance(base, Table) and base.name in ("N", "E"):
+                key = self.ev(st.targets[0].slice, env, conds, loops, st, quiet=True)
+                try:
+                    k = self.key_scalar(key, st)
+                except (Unsupported, Infeasible):
+                    k = None
+                if k is not None:
+                    for kk, vv in zip(st.value.keys, st.value.values):
+                        if isinstance(kk, ast.Constant) and kk.value in ("in", "out") and isinstance(vv, ast.Name) and isinstance(env.get(vv.id), SetV) and env[vv.id].entry is None and env[vv.id].source is None:
+                            env[vv.id] = Entry(base.name, k, kk.value)
         # `local = {...}; self._edge[k] = local`: from now on the local name denotes the stored entry (same object)
         if isinstance(st.value, ast.Name) and isinstance(val, (DiLocal, SetV)) and len(st.targets) == 1 and isinstance(st.targets[0], ast.Subscript):
             base = self.ev(st.targets[0].value, env, conds, loops, st, quiet=True)
